@@ -127,3 +127,6 @@ Definition pieces_run (c : pykey * list (list Z)) : list text :=
 (** whole run: events and the concatenation of what the real stdout received *)
 Definition full_run (l : list (pykey * list Z)) : calls * list text :=
   (events (ls_of l), [concat (real (ls_of l))]).
+
+(** `count` copies of one code point (long lines in the case files) *)
+Definition rp (count z : Z) : list Z := repeat z (Z.to_nat count).
